@@ -128,3 +128,61 @@ func c02RealConfigCases(col *Collector, focus string) {
 		}
 	}
 }
+
+// two stages with no dependency between them whose tasks share an execution context that takes a moment to fail to start
+// (`up: [sleep 0.3, false]`): whichever task reaches the context first, BOTH find it failed - both stages end in error,
+// their dependants are cancelled, the unrelated stage runs, the run reports an error. With `up` given as two failing
+// shapes: slow then failing, failing then slow.
+func slowFailingUpCases(col *Collector, focus string) {
+	for variant, up := range []string{`["sleep 0.3", "false"]`, `["false", "sleep 0.3"]`, `["sleep 0.2; exit 4"]`} {
+		dir := newScratchDir("c02u")
+		trace := filepath.Join(dir, "trace")
+		doc := fmt.Sprintf("contexts:\n  cx:\n    up: %s\ntasks:\n  a:\n    context: cx\n    command: [\"echo a >> %s\"]\n  b:\n    context: cx\n    command: [\"echo b >> %s\"]\n  da:\n    command: [\"echo da >> %s\"]\n  db:\n    command: [\"echo db >> %s\"]\n  free:\n    command: [\"echo free >> %s\"]\npipelines:\n  p:\n    - task: a\n    - task: b\n    - task: da\n      depends_on: [a]\n    - task: db\n      depends_on: [b]\n    - task: free\n", up, trace, trace, trace, trace, trace)
+		os.WriteFile(filepath.Join(dir, "tasks.yaml"), []byte(doc), 0644)
+		cs := Case{Tags: []string{"real-runner-config", "slow-failing-up"}, NonTrivial: true,
+			Replay: fmt.Sprintf("two parallel stages sharing a context whose up is %s (variant %d), each with a dependant, and an unrelated stage (config: %s)", up, variant, strings.ReplaceAll(doc, "\n", "\\n"))}
+		func() {
+			defer func() {
+				if p := recover(); p != nil {
+					cs.Fail, cs.Sig = fmt.Sprint("panic: ", p), "c02-final-status"
+				}
+			}()
+			cl := verifhooks.NewConfigLoader(verifhooks.NewConfig())
+			cl.VerifSetDirs(dir, filepath.Join(dir, "nohome"))
+			cfg, err := cl.Load(filepath.Join(dir, "tasks.yaml"))
+			if err != nil {
+				cs.Fail, cs.Sig = "configuration rejected: "+err.Error(), "sched-setup"
+				return
+			}
+			r, err := runner.NewTaskRunner(runner.WithContexts(cfg.Contexts))
+			if err != nil {
+				cs.Fail, cs.Sig = err.Error(), "sched-setup"
+				return
+			}
+			r.Stdout, r.Stderr = devNull{}, devNull{}
+			g := cfg.Pipelines["p"]
+			sd := scheduler.NewScheduler(r)
+			done := make(chan error, 1)
+			go func() { done <- sd.Schedule(g) }()
+			var serr error
+			select {
+			case serr = <-done:
+			case <-time.After(20 * time.Second):
+				cs.Fail, cs.Sig = "the run did not return within 20s", map[bool]string{true: "c03-no-return", false: "c02-final-status"}[focus == "C03"]
+				return
+			}
+			st := map[string]int32{}
+			for _, s := range g.Nodes() {
+				st[s.Name] = s.ReadStatus()
+			}
+			ran := strings.Join(readTrace(trace), ",")
+			cs.Impl = fmt.Sprintf("a=%d b=%d da=%d db=%d free=%d err=%v ran=%s", st["a"], st["b"], st["da"], st["db"], st["free"], serr != nil, ran)
+			want := fmt.Sprintf("a=%d b=%d da=%d db=%d free=%d err=true ran=free", scheduler.StatusError, scheduler.StatusError, scheduler.StatusCanceled, scheduler.StatusCanceled, scheduler.StatusDone)
+			if focus == "C02" && cs.Impl != want {
+				cs.Fail, cs.Sig = fmt.Sprintf("the run ended with %s; the context never came up, so the graph and the outcomes determine %s", cs.Impl, want), "c02-final-status"
+			}
+		}()
+		col.Add(cs)
+		os.RemoveAll(dir)
+	}
+}
